@@ -123,6 +123,11 @@ void harness(void)
 	m->offset = verif_nd_size("cursor");
 	VERIF_ASSUME(m->data_used <= sizeof(m->data));
 	VERIF_ASSUME(m->offset <= m->data_used);
+	/* the block after the cached one is not the cached one (holds in every
+	   reachable state, see contracts/loops/C10.tbl; re-established by the
+	   loop invariant) */
+	VERIF_ASSUME(m->next_block != m->block_offset ||
+		     m->block_offset >= m->limit);
 #ifdef VERIF_REPLAY
 	(memset)(m->data, 0xA5, sizeof(m->data));
 	(memset)(m->scratch, 0x5A, sizeof(m->scratch));
